@@ -37,6 +37,9 @@ pub struct Config {
     pub path_mtu: u16,
     /// max datagrams the network releases per step per host (0 = unlimited)
     pub net_batch: u32,
+    /// after a NAT rebinding the old binding keeps forwarding to the client (additive plans)
+    #[serde(default)]
+    pub nat_keeps_old_mapping: bool,
 }
 
 #[derive(Clone, Debug, Serialize, Deserialize, PartialEq)]
@@ -150,6 +153,7 @@ impl Default for Config {
             jitter_us: 0,
             path_mtu: 1500,
             net_batch: 0,
+            nat_keeps_old_mapping: false,
         }
     }
 }
@@ -304,6 +308,9 @@ pub enum Action {
     Replay { after_us: u64, from_other_addr: bool },
     /// set ECN CE on delivery
     EcnCe,
+    /// deliver, in addition to the original, a bit-flipped copy that claims to come from another
+    /// (spoofed, per-datagram distinct) source address
+    SpoofedCorrupt { bits: Vec<u32> },
     /// hold every datagram for the destination host for `us`, then burst
     Stall { us: u64 },
 }
